@@ -16,7 +16,7 @@ Values:
   ('fn', def) / ('assoc', def)  function item / associated constant
   ('unk',)
 """
-from mirlib import op_place, op_const, path_endswith, callee_resolved
+from mirlib import op_place, op_const, path_endswith, callee_resolved, resolve_place, short
 
 UNK = ('unk',)
 
@@ -204,7 +204,7 @@ def has_subterm(v, sub):
 
 
 class Interp:
-    def __init__(self, prog, hook=None, max_steps=200000, max_depth=6, loop_bound=2, opaque=None, record_backedge=False, split_opaque=True):
+    def __init__(self, prog, hook=None, max_steps=200000, max_depth=6, loop_bound=2, opaque=None, record_backedge=False, split_opaque=True, vec_model=False):
         """hook(interp, fn, term, args) -> None | value | Fork([...]); opaque: predicate on callee Fn -> do not descend"""
         self.prog = prog
         self.hook = hook
@@ -216,6 +216,7 @@ class Interp:
         self.serial = 0
         self.record_backedge = record_backedge
         self.split_opaque = split_opaque
+        self.vec_model = vec_model
 
     # -- values of places / operands
     def place_val(self, env, pl):
@@ -355,9 +356,14 @@ class Interp:
             a = self.op_val(fn, env, rv['a'])
             if rv['op'] == 'Not' and is_const(a) and isinstance(a[1], bool):
                 return C(not a[1])
+            if rv['op'] == 'PtrMetadata' and a[0] == 'tuple':
+                return C(len(a[1]))  # length of a slice whose elements are known (slice patterns `[a, b]`)
             return ('app', 'unop:' + rv['op'], (a,))
         if k == 'cast':
             return self.op_val(fn, env, rv['op'])
+        if k == 'len':
+            v = self.place_val(env, rv['pl'])
+            return C(len(v[1])) if v[0] == 'tuple' else ('app', 'len', (v,))
         return UNK
 
     # -- calls: returns a value or Fork, or a list of (value, effects) paths from a local callee
@@ -372,6 +378,32 @@ class Interp:
             if h is not None:
                 return h, args
         tr = c.get('trait') or ''
+        # opt-in: growable vectors built in this body are concrete element lists (Vec::new / with_capacity, then push on the local)
+        if self.vec_model and not c.get('local') and 'vec::Vec' in d:
+            if name in ('new', 'with_capacity') and len(args) <= 1:
+                return ('tuple', ()), args
+            if name == 'push' and len(args) == 2 and args[0][0] == 'tuple':
+                pl = op_place(t['args'][0])
+                root = resolve_place(fn, pl) if pl is not None else None
+                if root is not None and not root['p'] and env.get(root['l'], UNK) == args[0]:
+                    env[root['l']] = ('tuple', args[0][1] + (args[1],))
+                    # the `&mut` local that was passed sees the same vector
+                    if pl is not None and not pl['p']:
+                        env[pl['l']] = env[root['l']]
+                    return ('tuple', ()), args
+        # `iter.map(f)` over a concrete element list, collected: f is applied to the elements in order; collecting into
+        # Result<Vec<_>, _> / Option<Vec<_>> stops at the first Err / None and returns it (std: GenericShunt)
+        if not c.get('local') and path_endswith(tr, 'iter::Iterator') and depth < self.max_depth:
+            if name == 'map' and len(args) == 2 and args[0][0] == 'iter' and args[1][0] in ('closure', 'fn') and (env.get('__iter') or {}).get(args[0][1], 0) == 0:
+                self.serial += 1
+                return ('itermap', self.serial, args[0][2], args[1]), args
+            if name == 'collect' and len(args) == 1 and args[0][0] == 'itermap':
+                into = (c.get('args') or [''])[-1]
+                mode = 'result' if into.startswith('std::result::Result<std::vec::Vec<') else ('vec' if into.startswith('std::vec::Vec<') else None)
+                if mode is not None:
+                    res = self._collect_map(args[0][2], 0, args[0][3], depth, mode, ())
+                    if res is not None:
+                        return ('paths', res), args
         # std Vec model (path-local, kept in env): the last element after push(v, x) is x until v is handed out mutably again
         if not c.get('local'):
             vl = env.get('__vec_last') or {}
@@ -474,6 +506,13 @@ class Interp:
             r_ = self.apply_callable(args[0], list(args[1][1]), depth)
             if r_ is not None:
                 return r_, args
+        if not c.get('local') and name == 'unwrap_or_default' and len(args) == 1 and args[0][0] == 'adt' and ('option::Option' in d or 'result::Result' in d):
+            if args[0][3] in ('Some', 'Ok'):
+                return args[0][4][0], args
+            ty = (c.get('args') or ['?'])[0]
+            dflt = {'&str': C(''), 'std::string::String': C(''), 'bool': C(False), 'usize': C(0), 'i64': C(0), 'u32': C(0), 'i32': C(0)}.get(ty.replace("&'static str", '&str'))
+            if dflt is not None:
+                return dflt, args
         # Option / Result combinators on known values, applying closures / constructor fn items abstractly
         if not c.get('local') and ('option::Option' in d or 'result::Result' in d) and args and args[0][0] == 'adt' and depth < self.max_depth:
             r_ = self._combinator(fn, name, args, depth)
@@ -560,6 +599,12 @@ class Interp:
         target = None
         if r is not None:
             target = self.prog.by_path.get(r)
+        if target is None and c.get('local') and tr and args and args[0][0] == 'adt' and self.prog.by_path.get(d) is None:
+            # a method of a crate trait called on a generic parameter whose value is known here: dispatch on the receiver's type
+            for cand in self.prog.fns:
+                if cand.name == name and path_endswith(cand.j.get('impl_trait') or '', short(tr).split('<')[0]) and short(cand.j.get('impl_self_ty') or '').split('<')[0].lstrip('&') == short(args[0][1]).split('<')[0]:
+                    target = cand
+                    break
         if target is None and path_endswith(tr, 'convert::Into') and name == 'into' and len(args) == 1 and len(c.get('args') or []) >= 2:
             # blanket `impl<T, U: From<T>> Into<U> for T`: into(x) is U::from(x); follow a local From impl
             src_ty, dst_ty = c['args'][0], c['args'][1]
@@ -575,6 +620,9 @@ class Interp:
         if target is not None and depth < self.max_depth and target.kind != 'Closure' and not (self.opaque and self.opaque(target)):
             return ('paths', self.paths(target, args, depth + 1)), args
         nm = r or d
+        if r and not self.prog.by_path.get(r) and (path_endswith(tr, 'cmp::PartialOrd') or path_endswith(tr, 'cmp::PartialEq')) and r.startswith(('std::', 'core::', 'alloc::')):
+            # std's comparison impls (for references, for primitive types) are named by the trait method: `a > b` and `&a > &b` are one term
+            nm = d
         if name in TYPE_DIRECTED and c.get('args'):
             nm = '%s::<%s>' % (nm, c['args'][-1])
         # calls through a mutable reference are not pure: each call instance gets its own term
@@ -585,6 +633,39 @@ class Interp:
                 nm = '%s#%d' % (nm, self.serial)
                 break
         return ('app', nm, tuple(args)), args
+
+    def _collect_map(self, elems, i, f, depth, mode, acc):
+        """[(value, effects)] of collecting map(f) over elems[i:] given the already collected values `acc`"""
+        if i >= len(elems):
+            v = ('tuple', acc)
+            return [(OK(v) if mode == 'result' else v, ())]
+        r = self.apply_callable(f, [elems[i]], depth)
+        if r is None:
+            return None
+        outcomes = r[1] if (isinstance(r, tuple) and r and r[0] == 'paths') else [(r, ())]
+        out = []
+        for val, eff in outcomes:
+            if val == ('diverge',):
+                out.append((val, eff))
+                continue
+            if mode == 'result':
+                if is_adt(val, 'result::Result', 'Err'):
+                    out.append((val, eff))
+                    continue
+                if is_adt(val, 'result::Result', 'Ok'):
+                    item = val[4][0]
+                else:
+                    # opaque Result: both outcomes
+                    out.append((ERR(P_ERR(val)), eff + (('<branch>', None, (('app', 'discriminant', (val,)), C(1)), None),)))
+                    item = P_OK(val)
+                    eff = eff + (('<branch>', None, (('app', 'discriminant', (val,)), C(0)), None),)
+            else:
+                item = val
+            rest = self._collect_map(elems, i + 1, f, depth, mode, acc + (item,))
+            if rest is None:
+                return None
+            out += [(v2, eff + e2) for v2, e2 in rest]
+        return out
 
     def _iter_search(self, kind, elems, i, pred, depth, span):
         """Iterator::find / any / all / position over a concrete element list: the predicate is applied to the elements in order;
